@@ -45,6 +45,8 @@ var configs = []config{
 	// one skipped prefix is a string prefix of another one, followed by a byte below '/'
 	{"dot", []string{"/registry/pods", "/registry/pods.archive"}},
 	{"dot2", []string{"/registry/leases.k8s.io", "/registry/leases", "/registry/skip"}},
+	// a skipped prefix that contains the whole prefix range: nothing is compacted
+	{"covering", []string{"/registry/skip", "/registry"}},
 }
 
 // ---------- an engine slot that can be swapped under a live backend ----------
